@@ -374,7 +374,10 @@ class CFG:
 
     def all_paths_pass(self, start: Node, goals: t.Iterable[Node], through: t.Iterable[Node]) -> bool:
         """every path from start to any goal passes a node in ``through``."""
-        r = self.reach(start, avoid_nodes=list(through))
+        through = list(through)
+        if any(start is t for t in through):
+            return True
+        r = self.reach(start, avoid_nodes=through)
         return not any(g.id in r for g in goals)
 
     def path(self, start: Node, goal: Node, avoid_nodes: t.Iterable[Node] = (), avoid_edges=()) -> list[Node] | None:
